@@ -334,6 +334,7 @@ def main(chk):
         'assertion shard(key) == pg_partition_hash(key) % shards (independent transcription of PostgreSQL hashfn.c / '
         'partbounds.c, validated on 50 real-PostgreSQL vectors) is decided by z3 for all 2^64 x 2^64 inputs. Counterexamples are '
         'replayed against the natively compiled code before being reported.')
+    chk.explanation += (' (O5-get-shard) ConnectionPool::get on two shards, requested shard and role the solver\'s choice: whatever is tried or handed out belongs to the requested shard.')
     chk.assumptions += [
         'MIR `Rem` on usize is bvurem; for the equality query both sides use one uninterpreted function urem_uf (sound for equality)',
         'PostgreSQL semantics as transcribed in harness/refs.py from hashfn.c, hashfunc.c, hashfn.h, partbounds.c, partition.h',
@@ -377,6 +378,9 @@ def main(chk):
     for ids in (['0', '+1'], ['0', '1', '02']):
         c15.o3_build(chk, prog, ids, 'any', prop='C06')
     # the selected shard is the one statements run on, an out-of-range SET SHARD is refused, the selection persists (Client::handle executed)
+    # the last step of every routing path: the pool hands out a server of the shard it was asked for, also when that shard has no server of the requested role
+    import checks.c07 as c07mod
+    c07mod.o5_get_shard(chk, chk.program('on'), props=('C06',), only=('get-leaves-shard',))
     hobl.handle_obligations(chk, chk.program('on'), {'C06'}, ['commands'])
 
 
